@@ -808,6 +808,8 @@ class World(object):
         it = x.items
         obs = (rec or {}).get("status")
         if obs in lang.COMPLETED:
+            if it["n"] is not None and len(it["done"]) < it["n"]:
+                self.partial_items = True     # completed (failed/canceled) before every item was offered
             if it["inflight"]:
                 self.report("C12", "drain_before_complete", "%s completed (%s) while items %r are in flight"
                             % (x.key(), obs, sorted(it["inflight"])))
@@ -1148,6 +1150,7 @@ class World(object):
     retry_cut = False
     last_done = None
     canceled_by_request = False
+    partial_items = False
     kf_items_loop = None
     forced_failed = False
     held_back = 0
@@ -1266,6 +1269,14 @@ class World(object):
                             % [(b["join"], b["route"]) for b in ub])
         if st in ("succeeded",) :
             pass
+        # a task listed beside `fail` in a transition that fired is the documented clean-up task: it
+        # is still handed out although the workflow failed
+        if st == "failed" and not self.cancel_req and not self.inflight and not self.accepted_rerun \
+                and not self.forced_failed and not L.runtime_errors and not self.fault_fired and not self.o.get("data_fault"):
+            lost = [c for c in L.open_credits() if getattr(c, "beside_fail", False) and c.kind == "transition"]
+            if lost:
+                self.report("C01", "cleanup_runs", "the transition of %s listing %r beside `fail` fired, but the task was "
+                            "never offered" % ([L.execs[p_].key() for p_ in lost[0].parents], lost[0].task))
         # an unreachable-join error must name a join whose barrier really is partially satisfied
         # (only when that error is the sole cause of the failure: a workflow that already failed for
         # another reason may log such an entry for a join whose last inbound task is still running,
@@ -1448,9 +1459,14 @@ class World(object):
                 bwd = r if bwd is None else L.merge_ctx(bwd, r)
             fv, bv = fwd.values(), bwd.values()
             rolling = dict(fv)
+            racy_names = set()
             for name, vnode in spec_out:
                 rd = lang.reads(vnode)
-                racy = any((v in fwd.racy or v in bwd.racy or not jeq(fv.get(v), bv.get(v))) for v in rd)
+                racy = any((v in racy_names or v in fwd.racy or v in bwd.racy or not jeq(fv.get(v), bv.get(v))) for v in rd)
+                if racy:
+                    racy_names.add(name)      # a later output that reads this one is order-decided too
+                else:
+                    racy_names.discard(name)
                 try:
                     exp = lang.eval_value(vnode, None, rolling)
                 except lang.EvalFault:
@@ -1488,17 +1504,27 @@ class World(object):
             for r in reversed(refs):
                 bwd = r if bwd is None else L.merge_ctx(bwd, r)
             fv, bv = fwd.values(), bwd.values()
+            rolling_c = dict(fv)
+            racy_names = set()
             for name, vnode in spec_out:
+                try:
+                    exp_c = lang.eval_value(vnode, None, rolling_c)
+                except lang.EvalFault:
+                    break
+                rolling_c[name] = exp_c
                 if vnode[0] != "ctx":
+                    racy_names.discard(name)
                     continue
                 v = vnode[1]
-                if v in fwd.racy or v in bwd.racy or not jeq(fv.get(v), bv.get(v)):
+                if v in racy_names or v in fwd.racy or v in bwd.racy or not jeq(fv.get(v), bv.get(v)):
+                    racy_names.add(name)
                     continue
+                racy_names.discard(name)
                 got = (out or {}).get(name, "<absent>")
-                if not jeq(fv.get(v), got):
+                if not jeq(exp_c, got):
                     f = self.p.get("_features") or set()
                     kf, tags = None, []
-                    if "dict_republish" in f and (isinstance(got, dict) or isinstance(fv.get(v), dict)):
+                    if "dict_republish" in f and (isinstance(got, dict) or isinstance(exp_c, dict)):
                         kf, tags = "KF-dict-republish-deep-merge", ["dict_republish"]
                     elif len(refs) > 1 and stale_explains(v, got, fwd, refs):
                         kf, tags = "KF-stale-inherited-value-at-merge", ["stale_inherited_value_at_merge", "terminal_merge"]
@@ -1508,15 +1534,18 @@ class World(object):
                         # flagged terminal and the output falls back to the initial context
                         kf, tags = "KF-cancel-at-rest-output-from-initial-context", ["cancel_with_nothing_in_flight"]
                     self.report("C10", "output_rendered", "canceled workflow output %s = %s, but %s was published on the way "
-                                "to the executions after which nothing ran" % (name, canon(got)[:100], canon(fv.get(v))[:100]),
+                                "to the executions after which nothing ran" % (name, canon(got)[:100], canon(exp_c)[:100]),
                                 tags=tags, kf=kf)
         if self.cancel_req and self.status == "canceled":
             written = {}
             for d in L.deltas:
                 for k, w in d.items():
                     written.setdefault(k, []).append(w.value)
+            earlier = set()
             for name, vnode in spec_out:
-                if vnode[0] == "ctx":
+                shadowed = vnode[0] == "ctx" and vnode[1] in earlier      # reads an earlier output entry
+                earlier.add(name)
+                if vnode[0] == "ctx" and not shadowed:
                     got = (out or {}).get(name, "<absent>")
                     if not any(jeq(got, v) for v in written.get(vnode[1], [])):
                         f = self.p.get("_features") or set()
